@@ -173,7 +173,9 @@ CLAIMED["C12"] = dict(
          "unless authenticated or opted out; a supplied PEM/DER root is accepted); every configuration is run with the "
          "real clients (one harness build per TLS back end) against a loopback rustls server with static fixtures and "
          "TLC validates result and application octets received against IppTls.Accept.",
-    note="Cryptography not modelled; finite matrix enumerated completely; fixtures valid to 2126.",
+    note="Cryptography not modelled; finite matrix enumerated completely; fixtures valid to 2126. The matrix is extended beyond the "
+         "property's 240 cells: the server's own certificate as root (outcome partly unspecified), two roots supplied one after the "
+         "other, and a certificate that expired two minutes ago, issued by the test CA at every run (needs the openssl CLI).",
     technique="TLA+ decision model (TLC) + exhaustive configuration matrix on real TLS stacks validated by TLC",
     ref="DESIGN.md section 6 C12")
 
